@@ -709,4 +709,352 @@ theorem encode_partial (env : Env) (f0 : Uid → Fields) (res0 : List (Option Na
     subst ho
     simpa [outOf] using this
 
+/-! ### the no-idle clause -/
+
+/-- the body of `c08NoIdle` for one task -/
+def idleT (env : Env) (o : Output) (t : Uid) : Bool :=
+  let k := (env.info t).resource
+  let last : Int := match lastDay (rowsOf o.rows t) with
+    | some d => d
+    | none => match (o.f t).start with | some s => dayOf s | none => releaseDay env o t
+  (daysBetween (releaseDay env o t) last).all (fun d => fullDay env o k d t)
+
+theorem c08NoIdle_eq (env : Env) (f0 : Uid → Fields) (o : Output) :
+    c08NoIdle env f0 o =
+      (!env.balance || (memberList env).all (fun t => !c08Subject env f0 t || idleT env o t)) := rfl
+
+theorem mem_daysBetween (a b d : Int) : d ∈ daysBetween a b ↔ a ≤ d ∧ d < b := by
+  unfold daysBetween
+  simp only [List.mem_map, List.mem_range]
+  constructor
+  · rintro ⟨i, hi, rfl⟩; omega
+  · intro h
+    exact ⟨(d - a).toNat, by omega, by omega⟩
+
+/-- the last work day of a task, or its start day when it has no work -/
+def lastOpt (σ : SS) (t : Uid) : Option Int :=
+  match lastDay (rowsOf σ.rows t) with
+  | some d => some d
+  | none => (σ.f t).start.map dayOf
+
+/-- `r0` is not later than one of the days the release day is the maximum of (or the epoch) -/
+def RelLow (env : Env) (σ : SS) (t : Uid) (r0 : Int) : Prop :=
+  r0 ≤ dayOf epoch ∨ r0 ≤ dayOf env.bound ∨ r0 ≤ dayOf (env.clock 0) ∨
+  (∃ ms, (env.info t).minStart = some ms ∧ r0 ≤ dayOf ms) ∨
+  ∃ p ∈ (env.info t).preds, (p ∈ σ.done ∨ (env.info p).member = false) ∧ ∃ e, (σ.f p).end_ = some e ∧ r0 ≤ dayOf e
+
+/-- every day from `r0` up to the last work day is fully booked -/
+def FullFrom (env : Env) (σ : SS) (t : Uid) : Prop :=
+  ∃ r0 last, lastOpt σ t = some last ∧ RelLow env σ t r0 ∧
+    ∀ d, r0 ≤ d → d < last →
+      capMid σ.res (env.info t).resource d ≤ reserved σ.rows (env.info t).resource d none
+
+structure IdleI (env : Env) (f0 : Uid → Fields) (σ : SS) : Prop where
+  base : Base env f0 σ
+  doneMem : ∀ x ∈ σ.done, (env.info x).member = true
+  have_ : ∀ x ∈ σ.done, (σ.res.map (·.1)).contains (env.info x).resource = true
+  idle : ∀ t ∈ σ.done, c08Subject env f0 t = true → FullFrom env σ t
+
+/-- a later state keeps what was established for a task that is done -/
+theorem FullFrom.ext {env : Env} {σ σ' : SS} {t : Uid} (h : FullFrom env σ t) (ht : t ∈ σ.done) (he : Ext σ σ')
+    (hkey : (σ.res.map (·.1)).contains (env.info t).resource = true)
+    (hpos : ∀ r ∈ σ'.rows, 0 < r.units) (hmem : ∀ x ∈ σ'.done, (env.info x).member = true) :
+    FullFrom env σ' t := by
+  obtain ⟨r0, last, hlast, hlow, hfull⟩ := h
+  obtain ⟨r, hr, hq⟩ := he.rows
+  obtain ⟨r', hr', _⟩ := he.res
+  have hnew : ∀ y ∈ r, y.task ≠ t := fun y hy hc => (hq y hy).2 (hc ▸ ht)
+  refine ⟨r0, last, ?_, ?_, ?_⟩
+  · unfold lastOpt at hlast ⊢
+    rw [hr, rowsOf_append, rowsOf_none r t hnew, List.append_nil, he.frozen t ht]
+    exact hlast
+  · rcases hlow with h | h | h | h | ⟨p, hp, hpd, e, hpe, hle⟩
+    · exact Or.inl h
+    · exact Or.inr (Or.inl h)
+    · exact Or.inr (Or.inr (Or.inl h))
+    · exact Or.inr (Or.inr (Or.inr (Or.inl h)))
+    · refine Or.inr (Or.inr (Or.inr (Or.inr ⟨p, hp, ?_, e, ?_, hle⟩)))
+      · exact hpd.imp he.done_sub id
+      · rcases hpd with hpd | hpd
+        · rw [he.frozen p hpd]; exact hpe
+        · rw [he.untouched p (fun hc => by have := hmem p hc; rw [hpd] at this; cases this)]; exact hpe
+  · intro d h1 h2
+    have := hfull d h1 h2
+    rw [hr', capMid_append _ _ _ _ hkey, hr, reserved_append]
+    have hnn : 0 ≤ reserved r (env.info t).resource d none :=
+      reserved_nonneg r (fun y hy => hpos y (by rw [hr]; exact List.mem_append_right _ hy)) _ _ _
+    grind
+
+theorem reserved_after_place (env : Env) (σ σ' : SS) (t : Uid) (new : List (Int × Rat))
+    (hrows : σ'.rows = σ.rows ++ new.map (mkRow (env.info t).resource t)) (day : Int) :
+    reserved σ'.rows (env.info t).resource day none =
+      reserved σ.rows (env.info t).resource day none + daySum new day := by
+  rw [hrows, reserved_append, reserved_mk, if_pos ⟨rfl, fun t' h => by cases h⟩]
+
+theorem dayOf_maxT_of_le {a b : Time} (h : dayOf b ≤ dayOf a) : dayOf (maxT a b) = dayOf a := by
+  rcases maxT_cases a b with h' | h'
+  · rw [h']
+  · rw [h']
+    have : a ≤ maxT a b := le_maxT_left a b
+    rw [h'] at this
+    have := dayOf_mono this
+    omega
+
+/-- the no-idle clause for a task right after its placement (balancing on): every day from the day the search
+    started on up to the last work day is full -/
+theorem place_idle (env : Env) (σ1 σ σ' : SS) (t : Uid)
+    (hbal : env.balance = true) (hc : env.clockOK)
+    (hl : LedgerOK env σ) (hnr : ∀ r ∈ σ.rows, r.task ≠ t)
+    (hs : (σ.f t).start = none) (he : (σ.f t).end_ = none) (hleaf : (env.info t).children.isEmpty = true)
+    (hm : (env.info t).milestone = false)
+    (hpred : ∀ p ∈ (env.info t).preds, (p ∈ σ'.done ∨ (env.info p).member = false) ∧ (σ'.f p).end_ = (σ1.f p).end_)
+    (h : fwdPlace env σ t (maxEnds σ1 (env.info t).preds env.bound) = .ok σ') : FullFrom env σ' t := by
+  obtain ⟨s, e, rows, k0, k1, k2, left, hleft, hn, hsh, hs', he', hrows, hres⟩ :=
+    fwdPlace_leaf env σ σ' t _ hs he hleaf hm h
+  have hused : ∀ d, usedBy env σ.rows (env.info t).resource t d = reserved σ.rows (env.info t).resource d none := by
+    intro d; simp [usedBy, hbal]
+  have hu : ∀ d, 0 ≤ usedBy env σ.rows (env.info t).resource t d := fun d => reserved_nonneg _ hl.pos _ _ _
+  obtain ⟨d, c, hd0, hcap, hav, hsd, hds, hbefore⟩ := nearestFwd_spec _ _ _ _ hu hn
+  -- the day the search started on is one of the release days
+  have hlow : RelLow env σ' t (dayOf (maxT (maxT (maxEnds σ1 (env.info t).preds env.bound) (env.clock k0))
+      ((env.info t).minStart.getD epoch))) := by
+    rcases maxT_cases (maxT (maxEnds σ1 (env.info t).preds env.bound) (env.clock k0))
+      ((env.info t).minStart.getD epoch) with h1 | h1
+    · rw [h1]
+      rcases maxT_cases (maxEnds σ1 (env.info t).preds env.bound) (env.clock k0) with h2 | h2
+      · rw [h2]
+        rcases maxEnds_cases σ1 (env.info t).preds env.bound with h3 | ⟨p, hp, hpe⟩
+        · rw [h3]; exact Or.inr (Or.inl (Int.le_refl _))
+        · exact Or.inr (Or.inr (Or.inr (Or.inr ⟨p, hp, (hpred p hp).1, _, (hpred p hp).2.trans hpe, Int.le_refl _⟩)))
+      · rw [h2, hc.2 k0]; exact Or.inr (Or.inr (Or.inl (Int.le_refl _)))
+    · rw [h1]
+      cases hms : (env.info t).minStart with
+      | none => exact Or.inl (Int.le_refl _)
+      | some ms => exact Or.inr (Or.inr (Or.inr (Or.inl ⟨ms, hms, Int.le_refl _⟩)))
+  have hcm : ∀ (day : Int) (c' : Rat), capR (resLookup σ.res (env.info t).resource).2 (day : Rat) = .ok c' →
+      capMid σ'.res (env.info t).resource day = c' := fun day c' hc' => by
+    rw [hres]; exact capMid_lookup _ _ _ _ hc'
+  -- days before the day found by the search were full already
+  have hpre : ∀ d', dayOf (maxT (maxT (maxEnds σ1 (env.info t).preds env.bound) (env.clock k0))
+      ((env.info t).minStart.getD epoch)) ≤ d' → d' < d →
+      capMid σ'.res (env.info t).resource d' ≤ reserved σ'.rows (env.info t).resource d' none := by
+    intro d' h1 h2
+    obtain ⟨c', hc', hfull⟩ := hbefore d' h1 h2
+    rw [hcm d' c' hc', reserved_after_place env σ σ' t rows hrows, ← hused]
+    have hz : ∀ p ∈ rows, 0 < p.2 := fun p hp =>
+      ((shiftFwd_good _ _ _ _ _ _ hleft hsh hu).1 p hp).choose_spec.2.1
+    have := daySum_nonneg rows hz d'
+    grind
+  -- the clock is not on a later day than the start found
+  have hclkd : dayOf (env.clock k1) ≤ dayOf s := by
+    have h1 : env.clock k0 ≤ maxT (maxT (maxEnds σ1 (env.info t).preds env.bound) (env.clock k0))
+        ((env.info t).minStart.getD epoch) := Rat.le_trans (le_maxT_right _ _) (le_maxT_left _ _)
+    have := dayOf_mono h1
+    rw [hc.2 k1, ← hc.2 k0]
+    omega
+  obtain ⟨hz, hp⟩ := shiftFwd_spec _ _ _ _ _ _ hleft hu hsh
+  by_cases hl0 : left = 0
+  · refine ⟨_, d, ?_, hlow, hpre⟩
+    unfold lastOpt
+    rw [hrows, (hz hl0).2]
+    simp only [List.map_nil, List.append_nil]
+    rw [rowsOf_none σ.rows t hnr, hs']
+    simp [lastDay, hds]
+  · obtain ⟨dayL, dauL, hspec, hne, hlt, hle, hee⟩ := hp (by grind)
+    rw [dayOf_maxT_of_le hclkd, hds] at hspec
+    obtain ⟨⟨u, hlast⟩, hcapL, hdauL⟩ := hspec.last hne
+    have hlastmem : (dayL, u) ∈ rows := List.mem_of_getLast? hlast
+    have hrowsOf : rowsOf σ'.rows t = rows.map (mkRow (env.info t).resource t) := by
+      rw [hrows, rowsOf_append, rowsOf_none σ.rows t hnr, rowsOf_mk]
+      rfl
+    have hlastD : lastDay (rowsOf σ'.rows t) = some dayL := by
+      rw [hrowsOf]
+      apply lastDay_eq
+      · rw [map_day_mk]; exact List.mem_map.2 ⟨_, hlastmem, rfl⟩
+      · rw [map_day_mk]
+        intro x hx
+        obtain ⟨p, hp, rfl⟩ := List.mem_map.1 hx
+        exact (hspec.range p hp).2
+    refine ⟨_, dayL, ?_, hlow, ?_⟩
+    · unfold lastOpt; rw [hlastD]
+    · intro d' h1 h2
+      by_cases hd' : d' < d
+      · exact hpre d' h1 hd'
+      · have hpw : (rows.map (·.1)).Pairwise (· ≠ ·) := hspec.incr.imp (fun h => Int.ne_of_lt h)
+        rw [reserved_after_place env σ σ' t rows hrows, ← hused]
+        by_cases hex : ∃ p ∈ rows, p.1 = d'
+        · obtain ⟨p, hp, hpd⟩ := hex
+          obtain ⟨c', hc', hfull⟩ := hspec.full p hp (by omega)
+          rw [hpd] at hc' hfull
+          rw [hcm d' c' hc', daySum_mem rows d' p.2 hpw (by rw [← hpd]; exact hp), hfull]
+          grind
+        · obtain ⟨c', hc', hfull⟩ := hspec.skipped d' (by omega) (by omega) (fun p hp hpd => hex ⟨p, hp, hpd⟩)
+          rw [hcm d' c' hc', daySum_not_mem rows d' (fun p hp hpd => hex ⟨p, hp, hpd⟩)]
+          grind
+
+theorem mem_prereqLeaves_of_pred (env : Env) (t p : Uid) (hp : p ∈ (env.info t).preds)
+    (hleaf : (env.info p).children.isEmpty = true) : p ∈ prereqLeaves env t := by
+  unfold prereqLeaves waitsFor
+  refine List.mem_flatMap.2 ⟨p, List.mem_flatMap.2 ⟨t, List.mem_cons_self, hp⟩, ?_⟩
+  simp [leavesOf, hleaf]
+
+/-- the day the search started on is not later than the release day -/
+theorem relLow_le_release (env : Env) (σ : SS) (t : Uid) (r0 : Int)
+    (he : epoch ≤ env.clock 0 ∨ epoch ≤ env.bound)
+    (hpl : ∀ p ∈ (env.info t).preds, (p ∈ σ.done ∨ (env.info p).member = false) → (env.info p).children.isEmpty = true)
+    (h : RelLow env σ t r0) : r0 ≤ releaseDay env (outOf σ) t := by
+  unfold releaseDay
+  obtain ⟨⟨h1, h2⟩, _⟩ := foldl_max_spec
+    ([dayOf env.bound, dayOf (env.clock 0)] ++ ((env.info t).minStart.toList.map dayOf) ++
+      ((prereqLeaves env t).filterMap (fun p => (((outOf σ).f p).end_).map dayOf))) (dayOf env.bound)
+  have hb := h2 (dayOf env.bound) (by simp)
+  have hc := h2 (dayOf (env.clock 0)) (by simp)
+  rcases h with h | h | h | ⟨ms, hms, h⟩ | ⟨p, hp, hpd, e, hpe, h⟩
+  · rcases he with he | he
+    · have := dayOf_mono he; omega
+    · have := dayOf_mono he; omega
+  · omega
+  · omega
+  · have := h2 (dayOf ms) (by simp [hms])
+    omega
+  · have hmem := mem_prereqLeaves_of_pred env t p hp (hpl p hp hpd)
+    have := h2 (dayOf e) (by
+      apply List.mem_append_right
+      exact List.mem_filterMap.2 ⟨p, hmem, by show ((σ.f p).end_).map dayOf = some (dayOf e); rw [hpe]; rfl⟩)
+    omega
+
+theorem idleT_of_fullFrom (env : Env) (σ : SS) (t : Uid) (hbal : env.balance = true) (h : FullFrom env σ t)
+    (hrel : ∀ r0, RelLow env σ t r0 → r0 ≤ releaseDay env (outOf σ) t) : idleT env (outOf σ) t = true := by
+  obtain ⟨r0, last, hlast, hlow, hfull⟩ := h
+  have hr := hrel r0 hlow
+  have hlast' : (match lastDay (rowsOf (outOf σ).rows t) with
+    | some d => d
+    | none => match ((outOf σ).f t).start with | some s => dayOf s | none => releaseDay env (outOf σ) t) = last := by
+    unfold lastOpt at hlast
+    show (match lastDay (rowsOf σ.rows t) with
+      | some d => d
+      | none => match (σ.f t).start with | some s => dayOf s | none => releaseDay env (outOf σ) t) = last
+    cases hld : lastDay (rowsOf σ.rows t) with
+    | some d => rw [hld] at hlast; simpa using hlast
+    | none =>
+      rw [hld] at hlast
+      cases hst : (σ.f t).start with
+      | none => rw [hst] at hlast; cases hlast
+      | some s => rw [hst] at hlast; simpa using hlast
+  unfold idleT
+  simp only [hlast', List.all_eq_true, mem_daysBetween]
+  intro d hd
+  unfold fullDay booked
+  simp only [hbal, if_true, decide_eq_true_eq]
+  exact hfull d (by omega) hd.2
+
+theorem IdleI.place {env : Env} {f0 : Uid → Fields} {σ1 σ σ' : SS} {t : Uid}
+    (hbal : env.balance = true) (hc : env.clockOK) (hi : IdleI env f0 σ) (e1 : Ext σ1 σ)
+    (hp1 : ∀ p ∈ (env.info t).preds, (env.info p).member = (env.info t).member → p ∈ σ1.done)
+    (htm : (env.info t).member = true) (ht : t ∉ σ.done)
+    (h : fwdPlace env σ t (maxEnds σ1 (env.info t).preds env.bound) = .ok σ') : IdleI env f0 σ' := by
+  obtain ⟨he, hd⟩ := fwdPlace_ext env σ σ' t _ ht h
+  have hbase := hi.base.place ht h
+  have hmem : ∀ x ∈ σ'.done, (env.info x).member = true := by
+    intro x hx
+    rw [hd] at hx
+    rcases List.mem_append.1 hx with hx | hx
+    · exact hi.doneMem x hx
+    · simp only [List.mem_singleton] at hx; rw [hx]; exact htm
+  have hhave : ∀ x ∈ σ'.done, (σ'.res.map (·.1)).contains (env.info x).resource = true := by
+    intro x hx
+    rw [hd] at hx
+    obtain ⟨r', hr', _⟩ := he.res
+    rcases List.mem_append.1 hx with hx | hx
+    · rw [hr']; exact contains_append_left _ _ _ (hi.have_ x hx)
+    · simp only [List.mem_singleton] at hx
+      subst hx
+      obtain ⟨new, σm, hst, rfl, _⟩ := fwdPlace_stage env σ σ' x _ h
+      show (σm.res.map (·.1)).contains _ = true
+      rw [hst.res]
+      exact (resLookup_spec σ.res (env.info x).resource).2.2
+  refine ⟨hbase, hmem, hhave, ?_⟩
+  intro x hx hsub
+  rw [hd] at hx
+  rcases List.mem_append.1 hx with hx | hx
+  · exact (hi.idle x hx hsub).ext hx he (hi.have_ x hx) hbase.ledger.pos hmem
+  · simp only [List.mem_singleton] at hx
+    subst hx
+    obtain ⟨hleaf, hm, hs, hen⟩ := c08Subject_spec hsub
+    have hfx := hi.base.leafF x ht hleaf
+    refine place_idle env σ1 σ σ' x hbal hc hi.base.ledger (hi.base.noRows ht) (by rw [hfx]; exact hs)
+      (by rw [hfx]; exact hen) hleaf hm ?_ h
+    intro p hp
+    by_cases hpm : (env.info p).member = true
+    · have hp1' := hp1 p hp (hpm.trans htm.symm)
+      have hp2 := e1.done_sub hp1'
+      exact ⟨Or.inl (he.done_sub hp2), by rw [he.frozen p hp2, e1.frozen p hp1']⟩
+    · have hpf : (env.info p).member = false := by simpa using hpm
+      have hn' : p ∉ σ'.done := fun hc' => hpm (hmem p hc')
+      have hn : p ∉ σ.done := fun hc' => hn' (he.done_sub hc')
+      exact ⟨Or.inr hpf, by rw [he.untouched p hn', e1.untouched p hn]⟩
+
+theorem maxEnds_nil (σ : SS) (m : Time) : maxEnds σ [] m = m := rfl
+
+/-- `C08_noIdle_partial` (with link symmetry and the clock or the project start not before the epoch: a leaf
+    without `min_start` never starts before 1970-01-01, which the release day does not know about) -/
+theorem noIdle_partial (env : Env) (f0 : Uid → Fields) (res0 : List (Option Nat × Cal)) (o : Output)
+    (hf : env.flagsOK) (hc : env.clockOK) (hs : noSummaryLinks env = true) (ho : outsideLeaves env = true)
+    (hl : env.linksSym) (he : epoch ≤ env.clock 0 ∨ epoch ≤ env.bound)
+    (h : forwardCalc env f0 res0 = .ok o) : c08NoIdle env f0 o = true := by
+  rw [c08NoIdle_eq]
+  cases hbal : env.balance with
+  | false => rfl
+  | true =>
+  obtain ⟨mem, σ, hm, hp, hout⟩ := fwdRun_ok env f0 res0 o (forwardCalc_run env f0 res0 o h)
+  have hml := memberList_eq env mem hm
+  have hmemb : ∀ t, (env.info t).member = true ↔ t ∈ mem := fun t => by rw [← hml]; exact hf t
+  have hsl : ∀ t ∈ mem, (env.info t).children.isEmpty = true ∨ ((env.info t).preds = [] ∧ (env.info t).succs = []) := by
+    intro t ht
+    have := List.all_eq_true.1 hs t (by rw [hml]; exact ht)
+    simpa [isLeaf, List.isEmpty_iff] using this
+  have hI : IdleI env f0 σ := by
+    refine passList_inv (IdleI env f0) _ _ ?_ _ _
+      ⟨Base.init env f0 mem res0 1, (fun t ht => by cases ht), (fun t ht => by cases ht), (fun t ht => by cases ht)⟩ hp
+    intro a x b hx ha hh
+    refine fwdPass_inv2 env (IdleI env f0) (fun t m => (env.info t).member = true ∧ m = env.bound)
+      ?_ ?_ ?_ _ _ _ _ _ _ ⟨(hmemb x).2 (members_root env mem hm x hx), rfl⟩ ha hh
+    · intro σ1 σ σ' t m hq hi e1 hp1 ht _ hpl
+      obtain ⟨htm, rfl⟩ := hq
+      exact IdleI.place hbal hc hi e1 hp1 htm ht hpl
+    · intro t c σ1 m hq hcc
+      obtain ⟨htm, rfl⟩ := hq
+      have htmem := (hmemb t).1 htm
+      refine ⟨(hmemb c).2 (members_children env mem hm t htmem c hcc), ?_⟩
+      rcases hsl t htmem with hleaf | ⟨hpreds, _⟩
+      · rw [List.isEmpty_iff] at hleaf
+        rw [hleaf] at hcc; cases hcc
+      · rw [hpreds]; rfl
+    · intro t p m hq _ hpm
+      exact ⟨hpm.trans hq.1, hq.2⟩
+  have hdone := fwdRun_all_done env mem hm _ σ rfl hp
+  simp only [Bool.not_true, Bool.false_or, List.all_eq_true, hml]
+  intro t ht
+  cases hsub : c08Subject env f0 t with
+  | false => rfl
+  | true =>
+    have hfull := hI.idle t (hdone t ht) hsub
+    have := idleT_of_fullFrom env σ t hbal hfull (fun r0 hr0 => relLow_le_release env σ t r0 he (by
+      intro p hp hpd
+      rcases hpd with hpd | hpd
+      · have hpmem := (hmemb p).1 (hI.doneMem p hpd)
+        rcases hsl p hpmem with hleaf | ⟨_, hsuccs⟩
+        · exact hleaf
+        · have := (hl p t).1 hp
+          rw [hsuccs] at this; cases this
+      · have := List.all_eq_true.1 (List.all_eq_true.1 ho t (by rw [hml]; exact ht)) p hp
+        rw [hml] at this
+        simp only [Bool.or_eq_true, List.contains_iff_mem] at this
+        rcases this with hc' | hc'
+        · have := (hmemb p).2 hc'
+          rw [hpd] at this; cases this
+        · exact hc') hr0)
+    subst hout
+    simpa [outOf] using this
+
 end Pj.C08
